@@ -1087,7 +1087,10 @@ pub fn install_panic_hook() {
             .location()
             .map(|l| {
                 let f = l.file();
-                let f = f.rsplit("/repo/").next().unwrap_or(f);
+                let f = match f.rfind("/src/") {
+                    Some(i) => &f[i + 1..],
+                    None => f,
+                };
                 format!("{}:{}", f, l.line())
             })
             .unwrap_or_default();
